@@ -205,9 +205,26 @@ const vrfGoodCid = "QmUaFyXjZUNaUwYF8rBtbJc7fEJ46aJXvgV8z2HHs6jvmJ"
 // symbolic query values for the pin options this tier covers; empty = not given
 type vrfOpts struct {
 	name, mode, rmin, rmax, shard, update string
+	meta    string // value of the metadata key "team"
+	allocs  int    // 0 none, 1 one peer, 2 two peers
+	origins int    // 0 none, 1 one valid origin, 2 an invalid one
 }
 
+var vrfAllocStrs = []string{"", vrfGoodPeer, vrfGoodPeer + ",QmP63DkAFEnDYNjDYBpyNDfttu1fvUw99x1brscPzpqmmq"}
+var vrfOriginStrs = []string{"", "/ip4/1.2.3.4/tcp/4001/p2p/" + vrfGoodPeer, "/ip4/1.2.3.4/tcp/4001"}
+
 func vrfSymbolicQuery(q url.Values) vrfOpts {
+	if vrf_param("more_options") == 1 {
+		// the remaining options, with the others absent
+		o := vrfOpts{}
+		o.meta = vrf_nondet_string("q_meta_team")
+		o.allocs = vrf_choice("q_user_allocations", 3)
+		o.origins = vrf_choice("q_origins", 3)
+		q.Set("meta-team", o.meta)
+		q.Set("user-allocations", vrfAllocStrs[o.allocs])
+		q.Set("origins", vrfOriginStrs[o.origins])
+		return o
+	}
 	o := vrfOpts{
 		name:   vrf_nondet_string("q_name"),
 		mode:   vrf_nondet_string("q_mode"),
@@ -227,8 +244,8 @@ func vrfSymbolicQuery(q url.Values) vrfOpts {
 
 // optsInvalid: some option carries a value its parser rejects
 func (o vrfOpts) invalid() bool {
-	return vrf_or(vrf_or(vrf_and(o.rmin != "", !vrfAtoiOK(o.rmin)), vrf_and(o.rmax != "", !vrfAtoiOK(o.rmax))),
-		vrf_or(vrf_and(o.shard != "", !vrfParseUintOK(o.shard)), vrf_and(o.update != "", !vrfCidOK(o.update))))
+	return vrf_or(vrf_or(vrf_or(vrf_and(o.rmin != "", !vrfAtoiOK(o.rmin)), vrf_and(o.rmax != "", !vrfAtoiOK(o.rmax))),
+		vrf_or(vrf_and(o.shard != "", !vrfParseUintOK(o.shard)), vrf_and(o.update != "", !vrfCidOK(o.update)))), o.origins == 2)
 }
 
 func (o vrfOpts) check(po *types.PinOptions, label string) {
@@ -243,6 +260,18 @@ func (o vrfOpts) check(po *types.PinOptions, label string) {
 	vrf_assert(vrf_or(o.rmin != "", po.ReplicationFactorMin == 0), label+".rmin-unset")
 	vrf_assert(vrf_or(o.shard == "", po.ShardSize == vrfParseUint(o.shard)), label+".shard-size")
 	vrf_assert(vrf_or(o.update != "", po.PinUpdate == cid.Undef), label+".update-unset")
+	if vrf_param("more_options") == 1 {
+		v, ok := po.Metadata["team"]
+		vrf_assert(ok && v == o.meta && len(po.Metadata) == 1, label+".metadata")
+		vrf_assert(len(po.UserAllocations) == o.allocs, label+".user-allocations")
+		if o.allocs >= 1 && len(po.UserAllocations) >= 1 {
+			vrf_assert(peer.Encode(po.UserAllocations[0]) == vrfGoodPeer, label+".user-allocations")
+		}
+		vrf_assert(len(po.Origins) == o.origins, label+".origins")
+		if o.origins == 1 && len(po.Origins) == 1 {
+			vrf_assert(po.Origins[0].String() == vrfOriginStrs[1], label+".origins")
+		}
+	}
 }
 
 // VrfC11PinRoutes: POST/DELETE /pins/{hash}, /pins/{keyType}/{path}, /allocations/{hash},
